@@ -593,6 +593,63 @@ def _unpack_ex_arg(src):
 
 out["unpack_ex"] = {"before1_after2": _unpack_ex_arg("a, *b, c, d = x"), "before2_after0": _unpack_ex_arg("a, b, *c = x"), "before0_after1": _unpack_ex_arg("*a, b = x")}
 
+# ---------------------------------------------------------------- referents of an async generator's asend()/athrow() awaitables
+import gc as _gc
+
+
+def _asend_referents():
+    a1 = _agen()()
+    a2 = _agen()()
+    aw = a1.asend(a2)          # the sent value is itself an async generator
+    refs = _gc.get_referents(aw)
+    own = [i for i, r in enumerate(refs) if r is a1]
+    other = [i for i, r in enumerate(refs) if r is a2]
+    th = a1.athrow(ValueError)
+    trefs = _gc.get_referents(th)
+    res = {"asend_own_index": own, "asend_sent_value_index": other, "asend_n": len(refs), "athrow_own_index": [i for i, r in enumerate(trefs) if r is a1]}
+    import warnings as _w
+    with _w.catch_warnings():
+        _w.simplefilter("ignore")
+        del aw, th
+    return res
+
+out["asend_referents"] = _asend_referents()
+
+# ---------------------------------------------------------------- b_handler of an EXCEPT_HANDLER block (3.9 / 3.10 block stack)
+def _except_handler_b_handler():
+    """the b_handler field of the EXCEPT_HANDLER (type 257) block that is on the block stack while an except body runs:
+    read through ctypes from the frame object (layout: frameobject.h of this interpreter; f_valuestack is the 9th word)"""
+    if sys.version_info >= (3, 11):
+        return None
+    import ctypes as _ct
+    try:
+        try:
+            raise ValueError
+        except ValueError:
+            fr = sys._getframe()
+            co = fr.f_code
+            w = _ct.sizeof(_ct.c_void_p)
+            valuestack = _ct.c_size_t.from_address(id(fr) + 8 * w).value
+            off = valuestack - id(fr)
+            if not (0 < off < fr.__sizeof__()):
+                return None
+            localsplus = off - w * (co.co_nlocals + len(co.co_cellvars) + len(co.co_freevars))
+            blockstack = localsplus - 20 * 12
+            iblock = _ct.c_int.from_address(id(fr) + blockstack - 8).value
+            if not (0 < iblock <= 20):
+                return None
+            res = []
+            for i in range(iblock):
+                b_type = _ct.c_int.from_address(id(fr) + blockstack + 12 * i).value
+                b_handler = _ct.c_int.from_address(id(fr) + blockstack + 12 * i + 4).value
+                res.append((b_type, b_handler))
+            eh = [h for t, h in res if t == 257]
+            return {"blocks": res, "except_handler_b_handler": eh[0] if eh else None, "f_lasti": fr.f_lasti}
+    except Exception:
+        return None
+
+out["except_handler_block"] = _except_handler_b_handler()
+
 out["stdlib_module_names"] = sorted(getattr(sys, "stdlib_module_names", []))
 
 json.dump(out, sys.stdout)
